@@ -423,6 +423,8 @@ def run(ck, tier):
     _imp3(ck, 'C01', 'R13', ('R4',), 'the exception response carries another function code than the request', detail_prefixes=('illegal-function-code-source',))
     ck.rule('R12', 'the RTU frame length oracle sizes every request the spec allows a client to send, up to the 256-byte ADU limit (shared with C03 R3)')
     _imp3(ck, 'C03', 'R12', ('R3',), 'an over-long or boundary-size request is cut wrongly, fails its CRC and gets no answer instead of the exception response', detail_prefixes=('rtuFrameSize-shape', 'size-from-buffered-length', 'custom-size-override', 'fifo-size', 'mei-size-shape', 'base-size-shape'))
+    ck.rule('R15', 'a request with an unassigned function code is sized as the shortest frame by the RTU oracle and reaches the decoder (which answers exception 01): every class lookupPduClass can return knows its frame size (shared with C03 R3)')
+    _imp3(ck, 'C03', 'R15', ('R3',), 'on RTU framing a request with an unknown function code is dropped in the framer instead of being answered with exception 01', detail_prefixes=('lookup-returns-unsized-class', 'lookup-default-not-exception', 'lookup-key-transformed', 'lookup-result-not-recognised'))
     from .. import options as _opt
     ck.guard(_opt.rule_options_read_at_construction, ck, cx, 'R14', ('pymodbus.datastore.context', 'pymodbus.datastore.store'), ('ZeroMode',), 'contexts address their blocks one off from the configured mode: a request just outside a block is accepted and written, the last cell is refused')
     return cx.idx
